@@ -10,6 +10,7 @@ package main
 // unconstrained booleans, so both outcomes are explored.
 
 import (
+	"math/big"
 	"fmt"
 	"go/constant"
 	"go/types"
@@ -216,76 +217,36 @@ func cryptoStub(in *Interp, fn *ssa.Function, pkg, name string) StubFn {
 				et := sig.Results().At(0).Type().(*types.Pointer).Elem()
 				o := in.newObj(in.zero(et), "big.Int")
 				in.bigVals[o] = a[0].(*Term)
+				if t := a[0].(*Term); t.IsConst {
+					in.bigConc[o] = big.NewInt(sext(t.C, 64))
+				} else {
+					in.bigOpaque[o] = true
+				}
 				return Ptr{Obj: o}
 			}
 		}
 		if rn != nil && rn.Obj().Name() == "Int" {
-			switch name {
-			case "Lsh":
-				return func(in *Interp, fn *ssa.Function, a []Val) Val {
-					x, n := bigVal(in, a[1]), a[2].(*Term)
-					if !n.IsConst || n.C > 40 || !x.IsConst || x.C > 1<<20 {
-						panic(abort("unmodelled", "big.Int.Lsh beyond the tracked 64-bit range"))
-					}
-					in.bigVals[a[0].(Ptr).Obj] = BVConst(x.C<<n.C, 64)
-					return a[0]
-				}
-			case "Set":
-				return func(in *Interp, fn *ssa.Function, a []Val) Val {
-					if sp, ok := a[1].(Ptr); ok && sp.Obj != nil {
-						if t, ok := in.bigField[sp.Obj]; ok {
-							in.bigField[a[0].(Ptr).Obj] = t
-							delete(in.bigVals, a[0].(Ptr).Obj)
-							return a[0]
-						}
-					}
-					delete(in.bigField, a[0].(Ptr).Obj)
-					in.bigVals[a[0].(Ptr).Obj] = bigVal(in, a[1])
-					return a[0]
-				}
-			case "FillBytes":
-				return func(in *Interp, fn *ssa.Function, a []Val) Val {
-					buf := a[1].(SliceV)
-					p := a[0].(Ptr)
-					if t, ok := in.bigField[p.Obj]; ok {
-						// big-endian encoding of a field value: the same bytes Element.Marshal produces
-						ts := in.memoBytes(t.S, buf.Len, "elembytes")
-						for i := 0; i < buf.Len; i++ {
-							in.store(in.sliceElemPtr(buf, i), ts[i])
-						}
-						return buf
-					}
-					x := bigVal(in, a[0])
-					if !x.IsConst {
-						panic(abort("unmodelled", "big.Int.FillBytes of a symbolic machine integer"))
-					}
-					for i := 0; i < buf.Len; i++ {
-						sh := uint(8 * (buf.Len - 1 - i))
-						b := uint64(0)
-						if sh < 64 {
-							b = (x.C >> sh) & 0xff
-						}
-						in.store(in.sliceElemPtr(buf, i), BVConst(b, 8))
-					}
-					return buf
-				}
-			case "SetUint64", "SetInt64":
-				return func(in *Interp, fn *ssa.Function, a []Val) Val {
-					delete(in.bigField, a[0].(Ptr).Obj)
-					in.bigVals[a[0].(Ptr).Obj] = a[1].(*Term)
-					return a[0]
-				}
-			case "Uint64", "Int64":
-				return func(in *Interp, fn *ssa.Function, a []Val) Val { return bigVal(in, a[0]) }
-			case "IsUint64", "IsInt64":
-				return func(in *Interp, fn *ssa.Function, a []Val) Val { return BoolConst(true) }
-			}
-		}
-		if rn != nil && sig.Results().Len() == 1 && types.Identical(sig.Results().At(0).Type(), sig.Recv().Type()) {
+			inner := bigIntSymbolicStub(name, sig, bigVal)
 			return func(in *Interp, fn *ssa.Function, a []Val) Val {
-				delete(in.bigVals, a[0].(Ptr).Obj)
-				delete(in.bigField, a[0].(Ptr).Obj)
-				return a[0]
+				// arbitrary-precision concrete evaluation when every operand is concrete
+				if r, ok := in.bigConcreteCall(fn, name, a); ok {
+					return r
+				}
+				if inner != nil {
+					if name != "Uint64" && name != "Int64" && name != "IsUint64" && name != "IsInt64" && name != "FillBytes" {
+						in.bigForget(a[0])
+					}
+					return inner(in, fn, a)
+				}
+				if sig.Results().Len() == 1 && types.Identical(sig.Results().At(0).Type(), sig.Recv().Type()) {
+					// unmodelled operation on a non-concrete value: the receiver becomes opaque
+					in.bigForget(a[0])
+					delete(in.bigVals, a[0].(Ptr).Obj)
+					delete(in.bigField, a[0].(Ptr).Obj)
+					in.bigOpaque[a[0].(Ptr).Obj] = true
+					return a[0]
+				}
+				panic(abort("unmodelled", "big.Int."+name+" on a non-concrete value"))
 			}
 		}
 		return nil
